@@ -1,8 +1,10 @@
 """C05 — every storage backend behaves like one dictionary (structural part).
 
 Decides: keying (R1); forget scope terminated and mirrored in the cache (R2); queries are
-effect-free (R3); cache replace-on-put / write-through (R4); path-scheme writer/reader
-agreement (R5).  Does not decide: equivalence with a model dictionary over histories.
+effect-free (R3); cache replace-on-put / write-through, an entry answers and is filled only for
+the memento it holds (R4); path-scheme writer/reader agreement (R5); the cache lets go of a scope
+before the store starts to forget it (R2); an Iterable parameter is gone through once (R10).
+Does not decide: equivalence with a model dictionary over histories.
 """
 import ast
 import re
